@@ -53,7 +53,7 @@ func (n *Net) doCanned(c *Call, req *http.Request) (*http.Response, error) {
 			can = r
 		}
 	}
-	drain := can.DrainBeforeEnd && !can.ReadRequest
+	drain := (can.DrainBeforeEnd || c.Byz.DrainBeforeEnd) && !c.Byz.ReadRequest
 	e.mu.Lock()
 	e.HandlerDone = !drain
 	if drain && c.K.HTTP2 && can.Status > 299 {
